@@ -126,6 +126,7 @@ type scriptWriter struct {
 	afterDone int32
 	doneSeen  *int32
 	slow      bool
+	sentinel  []int // ids of the writes that failed with the bare io.ErrClosedPipe, in order
 }
 
 func (w *scriptWriter) WritePacketData(pkt []byte) error {
@@ -143,6 +144,15 @@ func (w *scriptWriter) WritePacketData(pkt []byte) error {
 	}
 	intact := string(cp) == string(pkt) && id >= 0 && string(cp) == string(frameFor(id))
 	if id >= 0 && !w.byID[id].Wr {
+		if id%8 == 5 {
+			// a write error of the class the RECEIVER calls unrecoverable (what a closed AF_PACKET socket returns): it
+			// is still one failed write, to be reported once, and the frames after it are still due. The bare sentinel
+			// carries no id: remember the order (the sender is one goroutine, its error stream is FIFO)
+			w.mu.Lock()
+			w.sentinel = append(w.sentinel, id)
+			w.mu.Unlock()
+			return io.ErrClosedPipe
+		}
 		return &idErr{id, "write"}
 	}
 	w.mu.Lock()
@@ -267,6 +277,15 @@ func runCase(idx int, class string, n, cap int, reqs []req, cancelAt int, slow b
 			var ie *idErr
 			if errors.As(e, &ie) {
 				errs = append(errs, ie.Error())
+			} else if e == io.ErrClosedPipe {
+				writer.mu.Lock()
+				if len(writer.sentinel) > 0 {
+					errs = append(errs, fmt.Sprintf("write:%d", writer.sentinel[0]))
+					writer.sentinel = writer.sentinel[1:]
+				} else {
+					errs = append(errs, "other:"+e.Error())
+				}
+				writer.mu.Unlock()
 			} else {
 				errs = append(errs, "other:"+e.Error())
 			}
